@@ -290,3 +290,25 @@ ufb = uf
 def hash_of_dump(a):
     import hashlib
     return hashlib.md5(ast.dump(a).encode("utf-8")).hexdigest()
+
+
+def source_of(v):
+    return repr(v)
+
+
+def embeddable(v):
+    if isinstance(v, (str, int, float, bool, bytes)) or v is None:
+        return True
+    if isinstance(v, (list, tuple)):
+        return all(embeddable(x) for x in v)
+    if isinstance(v, dict):
+        return all(embeddable(k) and embeddable(x) for k, x in v.items())
+    return False
+
+
+def has_attr_executor(n):
+    return hasattr(n, "_func_adl_executor")
+
+
+def attr_executor(n):
+    return getattr(n, "_func_adl_executor")
